@@ -33,6 +33,7 @@ func c11WhoWrites(c *Ctx) {
 		c.R.Errorf("anchor type kv.persistEncryptor not found")
 		return
 	}
+	retire := retireFunc(c)
 	for _, fn := range c.P.RepoFuncs(an.LibraryPkg) {
 		fname := core.FuncName(fn)
 		for _, call := range an.Calls(fn) {
@@ -65,7 +66,7 @@ func c11WhoWrites(c *Ctx) {
 			switch {
 			case fname == "(*kv.DB).Commit" && an.HasField(rv, rootF):
 				c.R.OK(rule, fname+": PUT via DB.root", c.P.Pos(call.Pos()), "the version object (content-named, C04.content-named)")
-			case fname == "(*kv.DB).moveMergedRoots" && an.HasField(rv, mergedF):
+			case fn == retire && an.HasField(rv, mergedF):
 				c.R.OK(rule, fname+": PUT via DB.merged", c.P.Pos(call.Pos()), "copy of a retired version under its own name with its recorded bytes (C03.retire)")
 			case fname == "(*kv.persistEncryptor).Store":
 				// receiver must be the embedded Persist of the encryptor itself
